@@ -195,6 +195,21 @@ class Outcome:
         return {k: getattr(self, k) for k in self.__slots__}
 
 
+WALL_CLASS = "no-result-within-the-wall-clock-bound"
+
+
+class SimWallLivelock(BaseException):
+    """Raised by the wall-clock bound; deliberately not a SimLivelock (property code does not catch it)."""
+
+
+def _wall_bound(mod) -> float:
+    """Bounded liveness for loops that do no I/O (which the I/O step budget cannot see): a run that has not
+    produced its result after this many seconds of wall time - thousands of times its normal duration - is
+    interrupted.  The only place where a real clock can influence a verdict; such a verdict carries no event
+    digest.  (A loop inside a compiled kernel cannot be interrupted: the driver's kill remains.)"""
+    return float(os.environ.get("VERIF_RUN_WALL_S") or getattr(mod, "RUN_WALL_S", 240))
+
+
 def run_scenario(mod, sc: dict, keep: bool = False) -> Outcome:
     """Execute one scenario with property module `mod`.  Returns an Outcome; a harness
     error (anything that is not a Violation) is recorded in .error, never as a verdict."""
@@ -206,6 +221,18 @@ def run_scenario(mod, sc: dict, keep: bool = False) -> Outcome:
     ARGFORM = sc.get("argform") or "int"
     if ARGFORM != "int":
         ctx.probe("integer-arguments-as-numpy-scalars")
+    import signal
+    import threading
+
+    armed = False
+    bound = _wall_bound(mod)
+    if bound > 0 and threading.current_thread() is threading.main_thread():
+        def _on_alarm(signum, frame):
+            raise SimWallLivelock(f"no result after {bound:.0f} s of wall time")
+
+        old_handler = signal.signal(signal.SIGALRM, _on_alarm)
+        signal.setitimer(signal.ITIMER_REAL, bound)
+        armed = True
     try:
         try:
             if getattr(mod, "GUARD_KERNELS", False):
@@ -225,6 +252,11 @@ def run_scenario(mod, sc: dict, keep: bool = False) -> Outcome:
             ctx.observations["rejected-out-of-domain"] += 1
             ctx.log("REJECTED", str(r)[:80])
             ctx.probes.clear()
+        except SimWallLivelock as e:
+            out.violation = f"{mod.ID}/livelock/{WALL_CLASS}"
+            out.detail = str(e)
+            out.info = {"api": "livelock", "wall": True}
+            ctx.log("VIOLATION", out.violation)
         except (SimCrash, SimLivelock) as e:
             # a crash / livelock that escaped the property's own handling
             out.error = f"escaped {type(e).__name__}: {e}\n{traceback.format_exc()}"
@@ -246,6 +278,8 @@ def run_scenario(mod, sc: dict, keep: bool = False) -> Outcome:
                 ctx.log("VIOLATION", out.violation)
             else:
                 out.error = f"{type(e).__name__}: {e}\n{traceback.format_exc()}"
+        if armed:
+            signal.setitimer(signal.ITIMER_REAL, 0)
         out.digest = ctx.digest()
         out.signature = ctx.signature()
         out.probes = dict(ctx.probes)
@@ -256,6 +290,9 @@ def run_scenario(mod, sc: dict, keep: bool = False) -> Outcome:
         out.artifacts = ctx.artifacts
         out.nontrivial = bool(getattr(mod, "nontrivial", lambda s, c: True)(sc, ctx))
     finally:
+        if armed:
+            signal.setitimer(signal.ITIMER_REAL, 0)
+            signal.signal(signal.SIGALRM, old_handler)
         try:
             os.chdir(_HOME_CWD)
         except OSError:
